@@ -11,7 +11,7 @@ import numpy as np
 from .. import vlib
 from ..catalog import make_data, pool_specs
 from ..vlib import f2bits, fl, il
-from .c18 import SpyRS
+from .c18 import ChoiceSpyRS, SpyRS
 
 
 class Timeout(Exception):
@@ -40,35 +40,6 @@ def pool_modules():
         if m.name.startswith("_") and not m.ispkg:
             mods.append(importlib.import_module(f"skactiveml.pool.{m.name}"))
     return mods
-
-
-class ChoiceSpyRS(SpyRS):
-    """Additionally records, for every outermost `choice(…, p=…)` call, the weight vector and the uniform numbers
-    numpy draws inside it (`choice` calls `self.random_sample`, which resolves to the override below)."""
-
-    def __init__(self, seed):
-        super().__init__(seed)
-        self.choice_calls = []
-        self._cur = None
-
-    def random_sample(self, size=None):
-        r = super().random_sample(size)
-        if self._cur is not None:
-            self._cur["inner"].append(np.array(r, dtype=float).ravel().copy())
-        return r
-
-    def choice(self, a, size=None, replace=True, p=None):
-        outer = self._cur is None and self._depth == 0
-        if outer:
-            self._cur = dict(a=np.array(a).copy(), size=size, replace=replace, p=None if p is None else np.array(p, dtype=float).copy(), inner=[])
-        try:
-            r = super().choice(a, size=size, replace=replace, p=p)
-        finally:
-            cur, self._cur = (self._cur, None) if outer else (None, self._cur)
-        if outer:
-            cur["out"] = np.array(r).copy()
-            self.choice_calls.append(cur)
-        return r
 
 
 class SimpleBatchSpy:
